@@ -272,18 +272,94 @@ def g_plane_box(tier):
   return obs
 
 
-# wrappers: (wrapper, core function, index of the normal in the core result or None when it is the plane normal)
-WRAPPERS = {
-  "collision_primitive:plane_sphere_wrapper": ("collision_primitive_core:plane_sphere", None),
-  "collision_primitive:sphere_sphere_wrapper": ("collision_primitive_core:sphere_sphere", 2),
-}
-
-
 class _Recording(FuncContract):
   def apply(self, ex, args, kw, fr, e):
     r = super().apply(ex, args, kw, fr, e)
     self.__dict__.setdefault("calls", []).append((args, r))
     return r
+
+
+def _sphere_box_cases():
+  MINVAL = __import__("wpv.consts", fromlist=["x"]).CONSTS["consts"]["MJ_MINVAL"]
+  c = "sphere_pos"
+  inside = " and ".join(f"abs({c}[{i}]) <= box_size[{i}]" for i in range(3))
+  outside = " or ".join(f"abs({c}[{i}]) > box_size[{i}] + {MINVAL}" for i in range(3))
+  return inside, outside
+
+
+def g_sphere_box_local(tier):
+  """sphere_box in the box frame (box_rot = identity, box_pos = 0; the general pose is g_sphere_box_pose)"""
+  key = "collision_primitive_core:sphere_box"
+  I = Vec((3, 3), [1.0, 0.0, 0.0, 0.0, 1.0, 0.0, 0.0, 0.0, 1.0])
+  Z = Vec((3,), [0.0, 0.0, 0.0])
+  inside, outside = _sphere_box_cases()
+  obs = []
+  c = "sphere_pos"
+  n, pos, dist = "result[2]", "result[1]", "result[0]"
+  q = [f"({pos}[{i}] + {n}[{i}]*(0.5*{dist}))" for i in range(3)]  # box-side point
+  p = [f"({pos}[{i}] - {n}[{i}]*(0.5*{dist}))" for i in range(3)]  # sphere-side point
+  for case, hyp in (("inside", inside), ("outside", outside)):
+    nn0 = contracts()["math:normalize_with_norm"]
+    nn = _Recording("math:normalize_with_norm", ret=nn0.ret, ghosts=nn0.ghosts, witness=nn0.witness, requires=nn0.requires, ensures=nn0.ensures)
+    nn.param_types = nn0.param_types
+    R = Run(key, args={"box_rot": I, "box_pos": Z}, contracts={"math:normalize_with_norm": nn}, pre=["sphere_radius >= 0.0", "box_size[0] > 0.0 and box_size[1] > 0.0 and box_size[2] > 0.0", hyp])
+    tag = f"sphere_box[box frame, centre {case}]"
+    hint = [f"box_size[{i}] == 1.0" for i in range(3)] + ["sphere_radius == 0.5"] + ([f"{c}[0] == 0.5", f"{c}[1] == 0.25", f"{c}[2] == 0.0"] if case == "inside" else [f"{c}[0] == 2.0", f"{c}[1] == 0.25", f"{c}[2] == 0.0"])
+    obs.append(canary(R, f"{tag}#canary", hints=[hint]))
+    obs += R.side_obligations(tag + "#")
+    extra = []
+    calls = getattr(nn, "calls", [])
+    if case == "outside" and len(calls) == 1:
+      # first step: the centre is farther than MJ_MINVAL from the box (so the code takes its outside branch);
+      # the later clauses may use it (it is itself an obligation)
+      norm = calls[0][1][1]
+      MINVAL = __import__("wpv.consts", fromlist=["x"]).CONSTS["consts"]["MJ_MINVAL"]
+      far = z3.And(norm > lift(MINVAL, "float"), norm > 0)
+      obs.append(R.obligation(f"{tag}#centre_is_outside", far, meta={"goal": "distance of the centre from the box exceeds MJ_MINVAL", "timeout_ms": 30000}))
+      extra = [norm > lift(MINVAL, "float"), norm > 0]
+    o = lambda name, text, goal: obs.append(R.obligation(f"{tag}#{name}", text, extra_assume=extra, meta={"goal": goal, "timeout_ms": 30000}))
+    o("normal_unit", f"{D3(n, n)} == 1.0", "the normal is a unit vector")
+    o("sphere_side", " and ".join(f"{p[i]} == {c}[{i}] + {n}[{i}]*sphere_radius" for i in range(3)), "pos - n*dist/2 is the sphere's surface point along the normal (normal points from the sphere to the box)")
+    o("box_side_within", " and ".join(f"abs({q[i]}) <= box_size[{i}]" for i in range(3)), "pos + n*dist/2 lies within the box ...")
+    o("box_side_on_face", " or ".join(f"abs({q[i]}) == box_size[{i}]" for i in range(3)), "... on one of its faces")
+    if case == "outside":
+      o("closest_point", " and ".join(f"{q[i]} == max(-box_size[{i}], min(box_size[{i}], {c}[{i}]))" for i in range(3)), "the box-side point is the point of the box closest to the sphere centre")
+    else:
+      depth = "min(box_size[0] - abs(sphere_pos[0]), min(box_size[1] - abs(sphere_pos[1]), box_size[2] - abs(sphere_pos[2])))"
+      o("nearest_face", f"{dist} == -({depth}) - sphere_radius", "centre inside: the distance is minus (depth of the centre below the nearest face + radius)")
+      o("box_side_is_projection", " and ".join(f"({q[i]} == {c}[{i}] or abs({q[i]}) == box_size[{i}])" for i in range(3)) + " and " + " and ".join(f"({q[i]})*{c}[{i}] >= 0.0" for i in range(3)), "the box-side point is the projection of the centre onto a face on the centre's own side")
+  return obs
+
+
+def g_sphere_box_pose(tier):
+  """pose covariance: sphere_box for a general box pose (R, b) equals the box-frame computation on R^T (s - b),
+  mapped back by p -> b + R p, n -> R n (a two-run relational obligation on the real function)"""
+  key = "collision_primitive_core:sphere_box"
+  R1 = Run(key)
+  ex = R1.ex
+  Rm, b, sp = R1.params["box_rot"], R1.params["box_pos"], R1.params["sphere_pos"]
+  # centre in the box frame, as a vector of terms:  R^T (s - b)
+  d = [sp.comps[i] - b.comps[i] for i in range(3)]
+  centre = Vec((3,), [sum((Rm.comps[3 * k + i] * d[k] for k in range(3)), z3.RealVal(0)) for i in range(3)])
+  I = Vec((3, 3), [1.0, 0.0, 0.0, 0.0, 1.0, 0.0, 0.0, 0.0, 1.0])
+  Z = Vec((3,), [0.0, 0.0, 0.0])
+  R2 = Run(key, args={"box_rot": I, "box_pos": Z, "sphere_pos": centre, "sphere_radius": R1.params["sphere_radius"], "box_size": R1.params["box_size"]})
+  d1, p1, n1 = R1.result
+  d2, p2, n2 = R2.result
+  hyp = list(R1.ex.assumes) + list(R2.ex.assumes)
+  obs = []
+  mk = lambda oid, goal, text: obs.append(Obligation(oid, hyp, goal, func=key, kind="relational", meta={"function": key, "source_hash": R1.info.source_hash, "goal": text, "timeout_ms": 30000}))
+  mk("sphere_box[pose]#dist", lift(d1, "float") == lift(d2, "float"), "the distance does not depend on the box pose")
+  mk("sphere_box[pose]#normal", z3.And(*[lift(n1.comps[i], "float") == sum((Rm.comps[3 * i + k] * lift(n2.comps[k], "float") for k in range(3)), z3.RealVal(0)) for i in range(3)]), "normal = R * (box-frame normal)")
+  mk("sphere_box[pose]#pos", z3.And(*[lift(p1.comps[i], "float") == b.comps[i] + sum((Rm.comps[3 * i + k] * lift(p2.comps[k], "float") for k in range(3)), z3.RealVal(0)) for i in range(3)]), "position = box_pos + R * (box-frame position)")
+  return obs
+
+
+# wrappers: (wrapper, core function, index of the normal in the core result or None when it is the plane normal)
+WRAPPERS = {
+  "collision_primitive:plane_sphere_wrapper": ("collision_primitive_core:plane_sphere", None),
+  "collision_primitive:sphere_sphere_wrapper": ("collision_primitive_core:sphere_sphere", 2),
+}
 
 
 def g_wrapper(wkey):
@@ -339,7 +415,7 @@ def g_wrapper(wkey):
 
 
 def groups(tier):
-  gs = [("frames", g_frames), ("core", g_core), ("sphere_capsule", g_sphere_capsule), ("plane_capsule", g_plane_capsule), ("plane_ellipsoid", g_plane_ellipsoid), ("plane_box", g_plane_box)]
+  gs = [("frames", g_frames), ("core", g_core), ("sphere_capsule", g_sphere_capsule), ("plane_capsule", g_plane_capsule), ("plane_ellipsoid", g_plane_ellipsoid), ("plane_box", g_plane_box), ("sphere_box_local", g_sphere_box_local), ("sphere_box_pose", g_sphere_box_pose)]
   for w in WRAPPERS:
     gs.append((f"wrapper:{w}", g_wrapper(w)))
   return gs
